@@ -21,6 +21,7 @@ EXPLANATION = (
 EXPLANATION += ' Added after the seeded-change rounds: ' + 'D4: after internal_insert / internal_insert_node the rejected node is disposed of at most once on every path.'
 EXPLANATION += ' Added in the third session (round-3 seeds and the findings they led to): ' + 'D5: every value written to the bucket count is a power of two by construction (one-bit abstract domain; doublings only where the doubled value is bounded from above).'
 EXPLANATION += ' Added in the fourth round of seeded changes: ' + 'D6: functor take-over - in a function that replaces my_compare no element is linked before the replacement; every function that copies nodes together with their order keys has taken my_hash_compare from the same source on every path (helpers pass the obligation to their callers; constructors and assignment operators never do).'
+EXPLANATION += ' Added later in the fourth round: ' + 'D7: empty() of a container range type means begin() == end() (the value returned compares the two members that begin() and end() hand out).'
 ASSUMPTIONS = ['instantiations: unordered/ordered map, multimap, set, multiset over int (explicit instantiation)']
 ND = ['traversal completeness under concurrent inserts', 'comparator order of iteration', 'linearizability']
 UB = None
@@ -47,6 +48,7 @@ def run(facts, rep):
     d4_dispose_once(facts, rep)
     d5_bucket_count_pow2(facts, rep)
     d6_functors(facts, rep)
+    d7_range_empty(facts, rep)
 
 
 def d1_list(facts, rep):
@@ -521,3 +523,75 @@ def d6_functors(facts, rep):
     if na < 2 or nb < 4:
         raise AnalysisBroken('functor take-over sites: %d comparator replacements, %d structural copies (expected >= 2 / >= 4)' % (na, nb))
     rep.floor('D6', 5, 'functor take-over sites')
+
+
+def d7_range_empty(facts, rep):
+    """"a traversal sees every element that was present before it began exactly once": the parallel algorithms skip a root range
+    whose empty() is true and never ask again.  For the range types of the containers (classes with begin(), end(), empty() and
+    is_divisible()) empty() therefore means exactly begin() == end(): the value it returns is the equality of the two members
+    that begin() and end() hand out (possibly of the same sub-member of both), with nothing dereferenced in between.  A test
+    on the SUCCESSOR of begin (a "has at most one element" test) makes parallel_for over a one-element container visit
+    nothing."""
+    n = 0
+    for cls_p, cs in sorted(facts.classes.items()):
+        if not cls_p.startswith(D2N) or not (cls_p.endswith('range_type') or cls_p.endswith('_range')):
+            continue
+        m = {}
+        for name in ('begin', 'end', 'empty', 'is_divisible'):
+            m[name] = facts.by_p.get(cls_p + '::' + name, [])
+        if not all(m.values()):
+            continue
+
+        def returned_member(g):
+            out = set()
+            for pos, s, nd in g.stmt_elems(('return',)):
+                if 'sub' not in nd:
+                    continue
+                ms = [g.nodes[x].get('n') for x in g.subtree(nd['sub']) if g.nodes[x].get('k') == 'member' and 'fn' not in g.nodes[x] and
+                      g.n(g.strip(g.nodes[x].get('base', -1))).get('k') == 'this']
+                out |= set(ms)
+            return out
+        bm = set().union(*[returned_member(g) for g in m['begin']])
+        em = set().union(*[returned_member(g) for g in m['end']])
+        if len(bm) != 1 or len(em) != 1:
+            continue
+        bmn, emn = list(bm)[0], list(em)[0]
+        for fn in m['empty']:
+            n += 1
+            ok = True
+            why = ''
+            rets = [(pos, nd) for pos, s, nd in fn.stmt_elems(('return',)) if 'sub' in nd]
+            for pos, nd in rets:
+                x = fn.n(fn.strip(nd['sub']))
+                if fn.cv(nd['sub']) is not None:
+                    ok, why = False, 'constant result'
+                    continue
+                if x.get('k') == 'call' and x.get('op') in ('==', '!='):
+                    sides = list(x.get('a', [])) + ([x['obj']] if x.get('obj', -1) >= 0 else [])
+                elif x.get('k') == 'binop' and x['op'] in ('==', '!='):
+                    sides = [x['l'], x['r']]
+                elif x.get('k') == 'unop' and x['op'] == '!':
+                    y = fn.n(fn.strip(x['sub']))
+                    sides = [y.get('l'), y.get('r')] if y.get('k') == 'binop' else ([y.get('obj')] + list(y.get('a', [])) if y.get('k') == 'call' else [])
+                else:
+                    ok, why = False, 'the result is not a comparison of begin and end (%s)' % fn.path(nd['sub'])
+                    continue
+                roots = []
+                deref = False
+                for sd in sides:
+                    if sd is None or sd < 0:
+                        continue
+                    sub = fn.subtree(sd)
+                    roots.append(set(fn.nodes[y].get('n') for y in sub if fn.nodes[y].get('k') == 'member' and 'fn' not in fn.nodes[y] and
+                                     fn.n(fn.strip(fn.nodes[y].get('base', -1))).get('k') == 'this'))
+                    if any(fn.nodes[y].get('k') == 'call' and not atomic_op(fn, y) and fn.nodes[y].get('op') not in ('==', '!=') for y in sub):
+                        deref = True
+                if len(roots) != 2 or not ((bmn in roots[0] and emn in roots[1]) or (bmn in roots[1] and emn in roots[0])) or deref:
+                    ok, why = False, 'compares %s' % fn.path(nd['sub'])
+            if len(rets) > 1 and ok:
+                pass
+            rep.ob('D7', 'K10', fn, 'empty() of a container range means begin() == end()', ok and bool(rets),
+                   '%s: a root range that holds elements reports empty() and the parallel algorithm skips it - a traversal of a '
+                   'one-element container visits nothing' % why, key_extra='range-empty')
+    if n < 2:
+        raise AnalysisBroken('container range types with begin/end/empty/is_divisible: %d (expected the ordered and the unordered one)' % n)
